@@ -185,7 +185,7 @@ func traceStrings(i *ids, log []entry) []string {
 		}
 		c = append(c, s)
 	}
-	if len(c) > 400 {
+	if len(c) > 400 && os.Getenv("C06_FULLTRACE") == "" {
 		c = append(c[:200], append([]string{"..."}, c[len(c)-200:]...)...)
 	}
 	return c
@@ -313,6 +313,25 @@ func analyse(sc Scenario, out *outcome, drv *lib.Driver) *caseResult {
 						"a self-consistent forged block — right number and parent, recomputed hash, matching state update — which only Store's root verification can refuse); %s. "+
 						"From here on RevertHead of this block fails and the node cannot follow the source", e.Num, backend, f.Fault, e.Note))
 				cr.hits["forged:STORED"]++
+				if drv != nil && forged {
+					// what does the model's Store say about this block on this chain?
+					var loc []string
+					known := true
+					for _, h := range chain {
+						hb := byHash[h.hash.String()]
+						if hb == nil {
+							known = false
+							break
+						}
+						loc = append(loc, token(id, hb, true))
+					}
+					if known {
+						if a, err := drv.Ask(strings.TrimSpace(fmt.Sprintf("succ %s loc %s", tokenOf(id, f), strings.Join(loc, " ")))); err == nil && a != "stored" {
+							cr.mismatches = append(cr.mismatches, lib.Mismatch{Sig: "store-outcome-differs-from-model", Input: replay(),
+								Model: "succession = " + a, Impl: "Store returned nil, the block is the new head"})
+						}
+					}
+				}
 			} else if !e.Valid {
 				viol("stored-block-is-not-a-verified-block-of-the-source", fmt.Sprintf("block %d stored with content that differs from the valid block: %s", e.Num, e.Note))
 			} else if !servedValid[e.Hash.String()] {
